@@ -131,6 +131,12 @@ def gen(ref, tier):
             if pat is None:
                 for nm in SPECIAL_NAMES:
                     yield "/".join(segs[:i] + [nm] + segs[i + 1:])
+                # long names: the string, or its uri, exactly at and one past the classic length limits (no limit is documented)
+                rest = len("/".join(segs[:i] + [""] + segs[i + 1:]))
+                for limit in (255, 256, 1024, 4096):
+                    for total in (limit, limit + 1, limit - len(typ) - 1, limit - len(typ)):
+                        if total - rest > 0:
+                            yield "/".join(segs[:i] + ["x" * (total - rest)] + segs[i + 1:])
 
 
 def plan(tier, seed):
